@@ -469,6 +469,16 @@ def ledger_episode(ctx, props, chain=False, discrete=False, prebuilt=None):
             if C07 or C01:
                 ctx.check(("C07" if C07 else "C01") + ":pre-nlv-replayed", abs(pre - rb.context_pre.nlv) <= REL * led.scale(),
                           k=k, ledger=pre, recorded=rb.context_pre.nlv)
+            if C07:
+                # the pre-trade snapshot is ONE state of the account: its cash, its posted margins and its fully-paid
+                # positions (at the quotes of that instant) add up to its NLV
+                snap_ = rb.context_pre
+                parts = float(snap_.nr_contracts.get(Cash(), 0.0)) + sum(float(v_) for v_ in snap_.margins.values())
+                for c_, p_ in led.pos.items():
+                    if p_ != 0 and not gen.is_margined(c_) and not isinstance(c_, Cash):
+                        parts += p_ * led.liq(c_) * c_.multiplier
+                ctx.check("C07:snapshot-adds-up", abs(parts - float(snap_.nlv)) <= REL * led.scale(), k=k, cash_margins_spot=parts,
+                          nlv=float(snap_.nlv), when="pre-trade")
             if C08:
                 src = acts[k - d] if k - d >= 0 else None
                 vals = alloc_denoted(src)
